@@ -5,6 +5,7 @@ import YakModel.EpochCheck
 import YakModel.VersCheck
 import YakModel.AbsorbCheck
 import YakModel.LeafCheck
+import YakModel.NodeSetCheck
 
 open Yak
 
@@ -207,6 +208,34 @@ partial def runLeaf (h : IO.FS.Stream) : IO UInt32 := do
       IO.println s!"DIFF line {lineNo}: {e}"
   return (if bad == 0 then 0 else 1)
 
+/-- outcome sets of `Proto/NodeSet` scenarios (all interleavings of the model): the key lists a
+    scan can return and the final chains; states, time and self-check counters go to stderr -/
+partial def runNodeSet (h : IO.FS.Stream) : IO UInt32 := do
+  let out ← IO.getStdout
+  let mut sc : NodeSetCheck.Scen := {}
+  let mut bad := 0
+  let mut lineNo := 0
+  repeat
+    let line ← h.getLine
+    if line.isEmpty then break
+    lineNo := lineNo + 1
+    let t0 ← IO.monoMsNow
+    match NodeSetCheck.stepLine sc line.trimAscii.toString with
+    | .ok (sc', o) =>
+      sc := sc'
+      match o with
+      | some o =>
+        for l in o.lines do
+          IO.println l
+        out.flush
+        let t1 ← IO.monoMsNow
+        IO.eprintln s!"nodeset: states={o.states} ms={t1 - t0} stuck={o.stuck} viol={o.viol}"
+      | none => pure ()
+    | .error e =>
+      bad := bad + 1
+      IO.println s!"DIFF line {lineNo}: {e}"
+  return (if bad == 0 then 0 else 1)
+
 def cfgOf : String → Tree.Cfg
   | "d2" => { fixD2 := false }
   | "d5" => { fixD5 := false }
@@ -224,6 +253,7 @@ def main (args : List String) : IO UInt32 := do
   | ["vers"] => runVers stdin
   | ["absorb"] => runAbsorb stdin
   | ["leaf"] => runLeaf stdin
+  | ["nodeset"] => runNodeSet stdin
   | _ => do
     IO.eprintln "usage: yakmodel unit | seq [fixed|d2|d5|d2d5] [focus classes…] < transcript"
     return 2
